@@ -187,10 +187,7 @@ func raceDescribe(v any) any {
 	}
 }
 
-var (
-	raceBaseline int
-	racePrev     []*sinkConn
-)
+var racePrev []*sinkConn
 
 func waitUntil(what string, f func() bool) {
 	dl := time.Now().Add(20 * time.Second)
@@ -202,20 +199,30 @@ func waitUntil(what string, f func() bool) {
 	}
 }
 
-// raceCleanup ends the connections of the previous execution and waits for the
-// goroutines that wake up from that (each writer's `<-conn.Closed()` goroutine
-// runs Shutdown on the abandoned engine) before the next execution starts.
-func raceCleanup() {
-	if raceBaseline == 0 {
-		raceBaseline = runtime.NumGoroutine()
-	}
+// raceCleanup ends the connections of the previous execution and waits until
+// no goroutine is inside the packages under test any more (each writer's
+// `<-conn.Closed()` goroutine wakes up and runs Shutdown on the abandoned
+// engine, whose router then handles the event): a goroutine that the
+// scheduler does not manage must never run shimmed code while an execution is
+// under way.  The goroutine dump is the one signal that does not depend on
+// what those goroutines do.
+func raceCleanup() error {
 	for _, c := range racePrev {
 		c.Close()
 	}
 	racePrev = nil
-	dl := time.Now().Add(2 * time.Second)
-	for runtime.NumGoroutine() > raceBaseline && time.Now().Before(dl) {
-		time.Sleep(50 * time.Microsecond)
+	buf := make([]byte, 1<<20)
+	dl := time.Now().Add(20 * time.Second)
+	for {
+		n := runtime.Stack(buf, true)
+		st := string(buf[:n])
+		if !strings.Contains(st, "hollywood/actor.") && !strings.Contains(st, "hollywood/remote.") {
+			return nil
+		}
+		if time.Now().After(dl) {
+			return fmt.Errorf("remote17race: goroutines of the previous execution did not finish:\n%s", st)
+		}
+		time.Sleep(30 * time.Microsecond)
 	}
 }
 
@@ -358,7 +365,9 @@ func raceMsg(n int) *actor.PID { return &actor.PID{Address: "m", ID: strconv.Ito
 func raceScenario(c raceCase) func() vsched.Scenario {
 	return func() vsched.Scenario {
 		// ---- unmanaged: bring the node up the normal way, W1 connected, message 1 on the wire
-		raceCleanup()
+		if err := raceCleanup(); err != nil {
+			panic(err)
+		}
 		r := &raceRun{rings: map[string][]string{}, lens: map[string]int64{}}
 		ynet.Dialer = func(network, address string) (net.Conn, error) {
 			sk := newSink()
@@ -543,7 +552,7 @@ func runRace(raw json.RawMessage) (any, error) {
 	defer func() {
 		yatomic.Enabled, yring.Enabled, ysync.Enabled = false, false, false
 		ynet.Dialer = nil
-		raceCleanup()
+		_ = raceCleanup()
 	}()
 	if c.MaxExecs == 0 {
 		c.MaxExecs = 100000
